@@ -315,7 +315,13 @@ def handleAstdiff (id : String) (xs : List Sx) : String :=
             let fails := ident.filter (fun (x : AD.AV × AD.Fate) => let (lo, hi) := AD.extentOf x.1; !AD.sepB lo hi ds regs fts)
             s!" (nonid{String.join nonid}) (identical {ident.length}) (samelen {if samelen then 1 else 0}) (twins {tw}) (ndecls {ds.length}) (sepfail {fails.length}{String.join (fails.map (fun (x : AD.AV × AD.Fate) => let (lo, hi) := AD.extentOf x.1; s!" ({lo} {hi})"))})"
         | none => " (nodecls)"
-      s!"(res {id} (changed{String.join (ch.map (fun r => s!" ({r.pos} {r.stop})"))}){snap}{bad}{decls})"
+      -- comment groups of the file that no value of the first snapshot is associated with
+      let missing := match xs.find? (fun x => match x with | .list (.atom "groups" :: _) => true | _ => false) with
+        | some (.list (_ :: gs)) =>
+            let held := AD.groupStarts old
+            s!" (cmsmissing {(gs.filter (fun (g : Sx) => !held.contains g.asNat)).length})"
+        | _ => ""
+      s!"(res {id} (changed{String.join (ch.map (fun r => s!" ({r.pos} {r.stop})"))}){snap}{bad}{decls}{missing})"
   | _, _ => s!"(res {id} (bad-case))"
 
 def ivsOf (xs : List Sx) : List Iv := xs.filterMap (fun i => match i with
